@@ -23,7 +23,7 @@ import (
 const classChurn = "broadcaster/subscription-churn"
 
 type churnStep struct {
-	kind byte // 'N' subscribe a subscriber that never reads, 'S' subscribe, 'C' cancel the i-th subscriber alive, 'B' broadcast
+	kind byte // 'M'/'T' ONE Subscribe call with two/three channels, 'R' re-subscribe the channels of the group that left last under a fresh context, 'N' subscribe a subscriber that never reads, 'S' subscribe, 'C' cancel the i-th subscriber alive, 'B' broadcast
 	i    int
 }
 
@@ -57,8 +57,17 @@ type churnSub struct {
 	ch        *mc.Chan[int]
 	cancel    context.CancelFunc
 	cancelled bool
-	from      int // number of values broadcast before its Subscribe returned
+	from      int // number of values broadcast before its (first) Subscribe returned
 	got       []int
+	nsubs     int // how many times this channel has been subscribed
+	lastFrom  int // number of values broadcast before its latest Subscribe returned
+}
+
+// churnGroup is one Subscribe call: one context, one or several channels.
+type churnGroup struct {
+	subs      []*churnSub
+	cancel    context.CancelFunc
+	cancelled bool
 }
 
 func mkChurn(c churn) *mc.Exec {
@@ -68,11 +77,13 @@ func mkChurn(c churn) *mc.Exec {
 	)
 	body := func() {
 		b := broadcaster.New[int]()
-		alive := func() []*churnSub {
-			var a []*churnSub
-			for _, s := range subs {
-				if !s.cancelled {
-					a = append(a, s)
+		var groups []*churnGroup
+		var lastLeft *churnGroup
+		alive := func() []*churnGroup {
+			var a []*churnGroup
+			for _, g := range groups {
+				if !g.cancelled {
+					a = append(a, g)
 				}
 			}
 			return a
@@ -82,25 +93,54 @@ func mkChurn(c churn) *mc.Exec {
 			all = append(all, v)
 			b.Broadcast(v)
 		}
+		subscribe := func(chs []*churnSub) {
+			ctx, cancel := mc.CtxWithCancel(context.Background())
+			g := &churnGroup{subs: chs, cancel: cancel}
+			groups = append(groups, g)
+			var cs []*mc.Chan[int]
+			for _, s := range chs {
+				cs = append(cs, s.ch)
+			}
+			b.Subscribe(ctx, cs...)
+			for _, s := range chs {
+				s.cancelled = false
+				s.nsubs++
+				s.lastFrom = len(all)
+				if s.nsubs == 1 {
+					s.from = len(all)
+				}
+			}
+		}
 		for _, st := range c.steps {
 			switch st.kind {
-			case 'S', 'N':
-				ctx, cancel := mc.CtxWithCancel(context.Background())
-				s := &churnSub{n: len(subs), ch: mc.NewChan[int](), cancel: cancel}
-				subs = append(subs, s)
-				if st.kind == 'S' {
-					mc.GoNamed(fmt.Sprintf("reader%d", s.n), func() {
-						for {
-							s.got = append(s.got, s.ch.Recv())
-						}
-					})
+			case 'S', 'N', 'M', 'T':
+				n := map[byte]int{'S': 1, 'N': 1, 'M': 2, 'T': 3}[st.kind]
+				var chs []*churnSub
+				for k := 0; k < n; k++ {
+					s := &churnSub{n: len(subs), ch: mc.NewChan[int]()}
+					subs = append(subs, s)
+					chs = append(chs, s)
+					if st.kind != 'N' {
+						mc.GoNamed(fmt.Sprintf("reader%d", s.n), func() {
+							for {
+								s.got = append(s.got, s.ch.Recv())
+							}
+						})
+					}
 				}
-				b.Subscribe(ctx, s.ch)
-				s.from = len(all)
+				subscribe(chs)
+			case 'R':
+				g := lastLeft
+				lastLeft = nil
+				subscribe(g.subs)
 			case 'C':
-				s := alive()[st.i]
-				s.cancelled = true
-				s.cancel()
+				g := alive()[st.i]
+				g.cancelled = true
+				for _, s := range g.subs {
+					s.cancelled = true
+				}
+				lastLeft = g
+				g.cancel()
 				if c.wait {
 					mc.TimeSleep(time.Millisecond)
 				}
@@ -124,6 +164,26 @@ func mkChurn(c churn) *mc.Exec {
 			return fmt.Errorf("deadlock: the controller never returned; %s", describe())
 		}
 		for _, s := range subs {
+			if s.nsubs > 1 && !c.wait {
+				// the channel was subscribed again while the forwarder of its
+				// ended subscription may still have been alive: each of the two
+				// subscriptions delivers a value at most once
+				cnt := map[int]int{}
+				for _, v := range s.got {
+					cnt[v]++
+					if v <= s.from || cnt[v] > s.nsubs {
+						return fmt.Errorf("subscriber %d (subscribed %d times) received %d %d times / although it was broadcast before its Subscribe; %s", s.n, s.nsubs, v, cnt[v], describe())
+					}
+				}
+				if !s.cancelled {
+					for _, v := range all[s.lastFrom:] {
+						if cnt[v] == 0 {
+							return fmt.Errorf("lost value: subscriber %d (re-subscribed under a fresh context, reads promptly) never received %d, broadcast after its re-Subscribe returned; %s", s.n, v, describe())
+						}
+					}
+				}
+				continue
+			}
 			// at most once, only values broadcast after its Subscribe, in call order
 			want := all[s.from:]
 			k := 0
@@ -136,8 +196,16 @@ func mkChurn(c churn) *mc.Exec {
 				}
 				k++
 			}
-			if !s.cancelled && len(s.got) != len(want) {
-				return fmt.Errorf("lost value: subscriber %d (still subscribed, reads promptly) received %v of the values %v broadcast after its Subscribe returned; %s", s.n, s.got, want, describe())
+			if !s.cancelled {
+				have := map[int]bool{}
+				for _, v := range s.got {
+					have[v] = true
+				}
+				for _, v := range all[s.lastFrom:] {
+					if !have[v] {
+						return fmt.Errorf("lost value: subscriber %d (still subscribed, reads promptly) received %v, not every value of %v broadcast after its (latest) Subscribe returned; %s", s.n, s.got, all[s.lastFrom:], describe())
+					}
+				}
 			}
 		}
 		mc.Outcome(strings.Join(seqs, "|"))
@@ -233,15 +301,79 @@ func stalledChurnScripts(maxLen int) [][]churnStep {
 	return out
 }
 
+// shapeScripts: scripts with ONE multi-channel Subscribe ('M' two, 'T' three
+// channels under one context; every channel is judged as a subscriber of its
+// own; 'C i' cancels the i-th Subscribe CALL alive) and / or ONE re-subscription
+// ('R': the channels of the call cancelled last are subscribed again under a
+// fresh context), at most 4 channels alive, at least one departure, a channel
+// alive at the end, no trailing Broadcast.
+func shapeScripts(maxLen int) [][]churnStep {
+	var out [][]churnStep
+	var rec func(cur []churnStep, groups []int, usedM, usedR bool, lastC int)
+	rec = func(cur []churnStep, groups []int, usedM, usedR bool, lastC int) {
+		chans, cancels := 0, 0
+		for _, g := range groups {
+			chans += g
+		}
+		for _, st := range cur {
+			if st.kind == 'C' {
+				cancels++
+			}
+		}
+		if len(cur) > 0 && (usedM || usedR) && chans >= 1 && cancels > 0 && cur[len(cur)-1].kind != 'B' {
+			out = append(out, append([]churnStep(nil), cur...))
+		}
+		if len(cur) == maxLen {
+			return
+		}
+		with := func(g int) []int { return append(append([]int(nil), groups...), g) }
+		if chans < 3 {
+			rec(append(cur, churnStep{kind: 'S'}), with(1), usedM, usedR, lastC)
+		}
+		if !usedM {
+			if chans <= 2 {
+				rec(append(cur, churnStep{kind: 'M'}), with(2), true, usedR, lastC)
+			}
+			if chans <= 1 {
+				rec(append(cur, churnStep{kind: 'T'}), with(3), true, usedR, lastC)
+			}
+		}
+		for i, g := range groups {
+			rest := append(append([]int(nil), groups[:i]...), groups[i+1:]...)
+			rec(append(cur, churnStep{kind: 'C', i: i}), rest, usedM, usedR, g)
+		}
+		if lastC > 0 && !usedR && chans+lastC <= 4 {
+			rec(append(cur, churnStep{kind: 'R'}), with(lastC), usedM, true, 0)
+		}
+		if len(groups) > 0 && cur[len(cur)-1].kind != 'B' {
+			rec(append(cur, churnStep{kind: 'B'}), groups, usedM, usedR, lastC)
+		}
+	}
+	rec(nil, nil, false, false, 0)
+	return out
+}
+
 func churnScenarios() []hx.Scenario {
 	var out []hx.Scenario
 	mk := func(sc []churnStep, wait bool, thoroughOnly bool) {
 		c := churn{steps: sc, wait: wait}
+		min := 2
+		for _, st := range sc {
+			if len(sc) > 4 && (st.kind == 'M' || st.kind == 'T' || st.kind == 'R') {
+				min = 1 // the 5-step multi-channel / re-subscribe scripts: 4 channels, 9+ threads
+			}
+		}
 		out = append(out, hx.Scenario{
 			Name: c.name(), Class: classChurn, ThoroughOnly: thoroughOnly,
-			Opts: mc.Options{Delay: true, MinBound: 2, Bound: 3, AutoClock: wait, ClockLast: wait, Horizon: time.Second, MaxSteps: 6000},
+			Opts: mc.Options{Delay: true, MinBound: min, Bound: 3, AutoClock: wait, ClockLast: wait, Horizon: time.Second, MaxSteps: 6000},
 			Mk:   func() *mc.Exec { return mkChurn(c) },
 		})
+	}
+	// multi-channel Subscribe calls and re-subscription of a channel that left
+	for _, sc := range shapeScripts(5) {
+		for _, wait := range []bool{true, false} {
+			mk(sc, wait, len(sc) > 4)
+		}
 	}
 	// a subscriber that leaves with values still buffered for it, then newcomers
 	for _, sc := range stalledChurnScripts(6) {
